@@ -190,6 +190,22 @@ def make_handlers(ctx):
         d = diff_obs(got, strip_reserved(before))
         if d:
             raise Violation(f"C06/{fmt}/roundtrip/{d[0]}", {"kind": kind, "observable": d[1], "loaded": d[2], "saved": d[3]})
+        # second generation: an object that itself came out of a load (and was driven in lock step since, weight and
+        # metadata updates included) must round-trip as faithfully as any other
+        for twin, tfmt in ctx.twins.get(a, [])[:1]:
+            name2 = f"gen2-{ctx.n}.{fmt}"
+            try:
+                tb = strip_reserved(obs_of(kind, twin, w))
+                save(twin, fs.path(name2), fmt)
+                again = strip_reserved(obs_of(kind, load(fs.path(name2)), w))
+            except Exception as e:  # noqa
+                raise Violation(f"C06/{fmt}/second-generation/raised", {"kind": kind, "first_format": tfmt, "exception": repr(e)})
+            d = diff_obs(again, tb)
+            if d:
+                raise Violation(f"C06/{fmt}/second-generation/{d[0]}", {"kind": kind, "first_format": tfmt, "observable": d[1],
+                                                                        "loaded": d[2], "saved": d[3]})
+            ctx.stats["second_generation_roundtrips"] = ctx.stats.get("second_generation_roundtrips", 0) + 1
+            fs.remove(name2)
         ctx.stats["roundtrips"] += 1
         ctx.stats["bytes_saved"] += len(fs.durable(name) or b"")
         if any(k.startswith("remove") and k.endswith(":ok") for k in w.stats["outcomes"]):
